@@ -223,7 +223,11 @@ func genItem(r *hx.Rng, depth int) interface{} {
 func main() {
 	run := hx.Start()
 	rng := hx.NewRng(run.Seed)
-	run.Watch(20*time.Second, 3<<30, func(cur string) string { return cur })
+	stall := 20 * time.Second
+	if run.Thorough() {
+		stall = 240 * time.Second // the thorough tier runs under -race; the 16 MB boundary values take minutes there
+	}
+	run.Watch(stall, 3<<30, func(cur string) string { return cur })
 
 	exhaustivePhase := true
 	doDec := func(bs []byte) {
@@ -359,6 +363,7 @@ func main() {
 			vals = append(vals, []interface{}{rlp.RawValue(raw)}, rlp.RawValue(raw))
 		}
 		for _, v := range vals {
+			run.Current(fmt.Sprintf("boundary-enc size=%d", n))
 			e1, err1 := rlp.EncodeToBytes(v)
 			var buf bytes.Buffer
 			err2 := rlp.Encode(&buf, v)
@@ -455,6 +460,10 @@ func main() {
 			doPrim(m)
 		}
 	}
+
+	// 3d. concurrent FIRST use of never-seen types (type cache lock discipline; see concurrent.go). Runs before the typed
+	//     section so that most element types are still unknown to the cache as well.
+	concurrentFirstUse(run, rng.Fork(5))
 
 	typed(run, rng.Fork(3))
 	run.Finish()
